@@ -205,42 +205,59 @@ def poly_rules(ctx, rule):
     at = fn.loc
     parts = Q.parts_of(ret) if ret is not None else []
     shape = [p[0] for p in parts]
-    ok_shape = shape == ["repeat", "byte"] and len(parts[0][1]) == 1 and parts[0][1][0][0] == "byte"
+    # accepted idioms for "one fresh draw per non-constant coefficient, then the secret":
+    #   (a) a counted loop pushing one coefficient per iteration      -> [repeat[byte c], byte s]
+    #   (b) an iterator over the range mapped through a closure       -> [base collected(mapped(range, c)), byte s]
+    coef = rng_lo = rng_hi = None
+    idiom = None
+    if shape == ["repeat", "byte"] and len(parts[0][1]) == 1 and parts[0][1][0][0] == "byte":
+        idiom = "loop"
+        coef = parts[0][1][0][1]
+    elif shape == ["base", "byte"] and parts[0][1].op == "collected" and parts[0][1].args[0].op == "mapped":
+        m = parts[0][1].args[0]
+        src = m.args[0]
+        if src.op == "range_iter" or (src.op == "agg" and src.args[0].endswith("ops::Range")):
+            idiom = "map"
+            coef = m.args[1]
+            rng_lo, rng_hi = (src.args[0], src.args[1]) if src.op == "range_iter" else (src.args[1], src.args[2])
+    ok_shape = idiom is not None
     ctx.add(rule, root + "#shape", ok_shape,
-            "the coefficient vector must be [one pushed coefficient per loop iteration]* followed by the secret; found %s"
+            "the coefficient vector must be one coefficient per index of 1..k (loop push or range.map(..).collect()) followed by the secret; found %s"
             % [(p[0], S(p[1], 3) if is_t(p[1]) else [(q[0], S(q[1], 3)) for q in p[1]]) for p in parts], at,
-            sample=str(shape))
+            sample=str(shape) + " idiom=" + str(idiom))
     if not ok_shape:
         return
-    coef = parts[0][1][0][1]
     last = parts[1][1]
     ctx.add(rule, root + "#secret-last", Q.path_of(last) == "s",
             "the constant term (pushed last) must be the secret element; found %s" % S(last, 3), at)
     okf = coef.op == "fp_random" and coef.args[0].op == "rng" and Q.path_of(coef.args[0].args[3]) == "rng"
     ctx.add(rule, root + "#fresh-draw-per-coefficient", okf,
-            "every non-constant coefficient must be Fp::random(<the supplied generator>) evaluated in that iteration; found %s"
+            "every non-constant coefficient must be Fp::random(<the supplied generator>) evaluated for that index; found %s"
             % S(coef, 4), at, sample=S(coef, 4))
-    # the draw is inside the loop and the loop runs over 1..k at full width
-    nx = [e for e in Q.calls(eng, "Iterator", in_fn=root) if (e.get("dname") or "").endswith("Iterator::next")]
+    # the draw happens once per index of 1..k at full width
     okl = False
-    det = "no counted loop"
-    if len(nx) == 1 and nx[0]["result"] is not None:
-        some = Q.variant(nx[0]["result"], 1)
-        if some and some[2] and some[2][0].op == "range_elem":
-            lo, hi = some[2][0].args[0], some[2][0].args[1]
-            narrow = Q.contains(hi, lambda t: t.op == "cast" and t.args[2] in ("u8", "u16", "i8", "i16"))
-            okl = lo.op == "int" and lo.args[0] == 1 and Q.params(Q.leaves(hi)) == {"k"} and not narrow and \
-                hi.op in ("cast", "param")
-            det = "loop over %s..%s" % (S(lo, 3), S(hi, 4))
-        draws = Q.calls(eng, "ff::Field::random", in_fn=root) + [e for e in Q.calls(eng, None, in_fn=root) if e.get("model") == "m_field_random"]
+    det = "no counted iteration"
+    draws = Q.calls(eng, "ff::Field::random") + [e for e in Q.calls(eng, None) if e.get("model") == "m_field_random"]
+    draws = [e for e in draws if e["frame"].startswith(fr.key)]
+    if idiom == "loop":
+        nx = [e for e in Q.calls(eng, "Iterator", in_fn=root) if (e.get("dname") or "").endswith("Iterator::next")]
+        if len(nx) == 1 and nx[0]["result"] is not None:
+            some = Q.variant(nx[0]["result"], 1)
+            if some and some[2] and some[2][0].op == "range_elem":
+                rng_lo, rng_hi = some[2][0].args[0], some[2][0].args[1]
         cfg = fr.cfg
         heads = cfg.loop_heads()
-        inloop = bool(draws) and all(any(cfg.dominates(h, d["block"]) and d["block"] in cfg.reachable_from(h) and
-                                         h in cfg.reachable_from(d["block"]) for h in heads) for d in draws)
-        okl = okl and inloop
-        det += "; draw inside loop: %s" % inloop
+        per_index = bool(draws) and all(e["frame"] == fr.key and any(cfg.dominates(h, e["block"]) and h in cfg.reachable_from(e["block"]) for h in heads) for e in draws)
+    else:
+        # the draw is made inside the closure invoked by map (once per element)
+        per_index = bool(draws) and all("#map@" in e["frame"] for e in draws)
+    if rng_lo is not None:
+        narrow = Q.contains(rng_hi, lambda t: t.op == "cast" and t.args[2] in ("u8", "u16", "i8", "i16"))
+        okl = rng_lo.op == "int" and rng_lo.args[0] == 1 and Q.params(Q.leaves(rng_hi)) == {"k"} and not narrow and \
+            rng_hi.op in ("cast", "param") and per_index
+        det = "indices %s..%s; one draw per index: %s" % (S(rng_lo, 3), S(rng_hi, 4), per_index)
     ctx.add(rule, root + "#loop-1-to-k", okl,
-            "the coefficient loop must run over 1..k (k the full-width threshold) with the draw inside it: %s" % det, at, sample=det)
+            "there must be exactly one draw per index of 1..k (k the full-width threshold): %s" % det, at, sample=det)
     # one polynomial per secret chunk in dealer_rng, all from the same generator, threshold = self.0
     root2 = "star_sharks::Sharks::dealer_rng"
     eng2, ret2, st2, fr2 = ctx.root(root2)
